@@ -22,7 +22,7 @@ EXPLANATION = (
     "is appended only under size == 1. R3 slice-offset agreement: an argmin/argmax over a[k:] indexes full-length arrays only after + k on "
     "every path. R4 noise test: the second evaluation is at the same point with the no-record flag and the level is raised iff |y - y'| > "
     "tol_noise. R5 supplement index: a per-row log array describing the returned point must be indexed by a lookup of that point; the "
-    "last-filled index qualifies only right after a recording call for that point. Numeric values and the quantile choice are not decided."
+    "last-filled index qualifies only right after a recording call for that point. R6 the final re-sampling is guarded by the noisy mode and noise_final_samples > 0 only. Numeric values and the quantile choice are not decided."
 )
 
 
@@ -81,6 +81,19 @@ def check(ctx):
                 if R.is_logger_call(opt, c2) or any(isinstance(t, FunctionInfo) and R.can_reach_target(t) for t in tg):
                     late.append(c2)
             ctx.check(not late, opt, late[0] if late else floop, "no target-reaching call after the final samples", "the target can be called again after the final samples: they are not the last calls of the run", construct=f"evaluation after final sampling: {canon(late[0].func) if late else ''}")
+
+    # ------------------------------------------------------------------ R6
+    ctx.rule("R6", "the final re-sampling runs for every noisy run with noise_final_samples > 0", floor=0)
+    if floop is not None:
+        g = guard_canon(prog, opt, floop)
+        allowed = {"(0 < OS[uncertainty_handling_level])", "(1 <= OS[uncertainty_handling_level])", "(0 < OPT[noise_final_samples])", "(1 <= OPT[noise_final_samples])"}
+        extra = sorted(x for x in g if x not in allowed)
+        if not any(x in g for x in ("(0 < OS[uncertainty_handling_level])", "(1 <= OS[uncertainty_handling_level])")):
+            ctx.fail(opt, floop, "the final re-sampling is not tied to the noisy mode", construct="final sampling without noisy-mode guard")
+        if extra:
+            ctx.fail(opt, floop, f"the final re-sampling is additionally guarded by {extra}: noisy runs for which that fails return a GP estimate with no fresh samples at x (yval_vec is None)", construct=f"final sampling additionally guarded by {' & '.join(extra)}")
+        else:
+            ctx.ok(opt, floop, "final sampling guarded by noisy mode and noise_final_samples > 0 only")
 
     # ------------------------------------------------------------------ R2
     ctx.rule("R2", "fval = mean(yval_vec), fsd = std(yval_vec)/sqrt(size); vectors filled from the call of the same iteration", floor=4, policy="degrade")
